@@ -278,8 +278,9 @@ def check_quiescent(fs: dict[str, Any], cancel_requested: bool = False) -> list[
     stages = fs["stages"]
     top = {k: v for k, v in stages.items() if not v["synthetic"]}
     st_all = {k: v["status"] for k, v in stages.items()}
-    if fs["dlq"]:
-        out.append(V("C05", "dead-lettered", f"{fs['dlq']} engine message(s) ended in the dead-letter queue"))
+    # a message in the dead-letter queue is not part of C05's statement (ContinueParentStage for a parent that a
+    # halt canceled meanwhile is rejected by the state machine and dead-lettered, the workflow is final): callers
+    # count it as a probe.  A workflow that is stuck *because* a message was dead-lettered is reported as stuck.
     if fs["queue"]:
         return out  # not quiescent; caller decides
     waiting = wf in ("BUFFERED", "PAUSED") or any(s == "SUSPENDED" for s in st_all.values())
@@ -439,6 +440,90 @@ def stale_applications(h: History) -> list[dict[str, Any]]:
             out.append({"handler": "RunTask", "kind": "execution", "old": "-", "new": e["key"], "seq": e["audit_seq"],
                         "stage": h.key_of_stage(sid)})
     out.sort(key=lambda x: x["seq"])
+    return out
+
+
+def sweep_in_claim_plan_window(h: History) -> list[dict[str, Any]]:
+    """Recovery sweeps that queued work for a stage *between* a StartStage handling's claim commit and the last
+    commit of the same handling (plan: tasks, synthetic before-stages, first StartTask / StartStage): the sweep saw
+    a RUNNING stage whose planning was not durable yet and started it itself."""
+    import json as _json
+
+    claims: dict[str, dict[str, Any]] = {}      # message id -> claim row
+    last: dict[str, int] = {}                   # message id -> last audit seq written under it (handler part)
+    for r in h.audit:
+        hd, mid = ctx_handler(r["ctx"]), ctx_msgid(r["ctx"])
+        if hd != "StartStage" or not mid:
+            continue
+        if r["kind"] == "stage" and r["old"] == "NOT_STARTED" and r["new"] == "RUNNING":
+            claims[mid] = r
+        if mid in claims and r["kind"] in ("stage", "stage_ins", "task_ins", "q_ins"):
+            last[mid] = r["seq"]
+    out = []
+    status: dict[str, str] = {}
+    for r in h.audit:
+        if r["kind"] in ("stage_ins", "stage"):
+            status[r["row_id"]] = r["new"]
+        if r["kind"] != "q_ins" or ctx_handler(r["ctx"]) != "recovery":
+            continue
+        try:
+            p = _json.loads((r["extra"] or {}).get("payload") or "{}")
+        except Exception:
+            p = {}
+        sid = p.get("stage_id")
+        hit = False
+        for mid, c in claims.items():
+            if c["row_id"] == sid and c["seq"] < r["seq"] < last.get(mid, 0):
+                out.append({"stage": h.key_of_stage(sid), "queued": r["new"], "seq": r["seq"], "msg": mid, "how": "inside"})
+                hit = True
+        if not hit and r["new"] == "StartTask":
+            # the sweep decided on a read taken inside that window and committed its StartTask after the plan: the
+            # stage's before-stages exist by now and are not finished, yet its first task is being started
+            pending = [k for k, info in h.stage_info.items()
+                       if info.get("parent") == sid and str(info.get("owner") or "").endswith("BEFORE")
+                       and info.get("ins_seq", 0) < r["seq"] and status.get(k) not in COMPLETE]
+            if pending:
+                out.append({"stage": h.key_of_stage(sid), "queued": r["new"], "seq": r["seq"], "msg": "-", "how": "stale-read"})
+    return out
+
+
+def jump_path_not_rearmed(h: History, prog: Any) -> list[dict[str, Any]]:
+    """Backward jumps that re-armed the jumping stage but left a *completed* stage on the way from the target back
+    to it untouched (a fan-in with an upstream outside the re-armed set is deliberately not reset): when the
+    target's branch finishes again, the StartStage for that stage is ignored ("already SUCCEEDED") and nothing
+    ever restarts the jumping stage - the workflow stays RUNNING with an empty queue."""
+    out: list[dict[str, Any]] = []
+    if prog is None:
+        return out
+    status: dict[str, str] = {}
+    by_commit: dict[tuple[str, int], list[dict[str, Any]]] = {}
+    for r in h.audit:
+        if r["kind"] == "stage_ins":
+            status[r["row_id"]] = r["new"]
+            continue
+        if r["kind"] != "stage":
+            continue
+        if ctx_handler(r["ctx"]) == "JumpToStage" and r["new"] == "NOT_STARTED" and r["old"] != "NOT_STARTED":
+            ci = h.commit_of(r["seq"])
+            by_commit.setdefault((ctx_msgid(r["ctx"]), ci if ci is not None else -1), []).append(dict(r, before=dict(status)))
+        status[r["row_id"]] = r["new"]
+    for (_mid, _ci), rows in by_commit.items():
+        rearmed = {h.key_of_stage(r["row_id"]) for r in rows}
+        rearmed_top = {k for k in rearmed if k in prog.stages}
+        # the jumping stage is the re-armed stage that was RUNNING with everything it depends on done: take every
+        # re-armed stage as a candidate source, the diagnosis only needs one witness
+        before = rows[0]["before"]
+        st_by_key = {h.key_of_stage(sid): st for sid, st in before.items()}
+        for src in sorted(rearmed_top):
+            if st_by_key.get(src) != "RUNNING":
+                continue
+            for tgt in sorted(rearmed_top):
+                if tgt == src or tgt not in prog.ancestors(src):
+                    continue
+                between = (prog.descendants(tgt) & prog.ancestors(src)) - rearmed_top
+                stuck = sorted(x for x in between if st_by_key.get(x) in COMPLETE)
+                if stuck:
+                    out.append({"source": src, "target": tgt, "not_rearmed": stuck, "seq": rows[0]["seq"]})
     return out
 
 
